@@ -3,6 +3,8 @@ import TFV.Properties.TreeCR
 import TFV.Properties.Src.TreeIdx
 import TFV.Properties.Src.CommonRegion
 import TFV.Properties.Src.TreeMethods
+import TFV.Properties.Src.StandardX
+import TFV.Properties.Src.OnePointGP
 #print axioms TFV.Tree.C09_scan_flat
 #print axioms TFV.Tree.C09_size_flat
 #print axioms TFV.Tree.C09_endSub
@@ -33,3 +35,6 @@ import TFV.Properties.Src.TreeMethods
 #print axioms TFV.SrcTie.C09_src_tree_concat
 #print axioms TFV.SrcTie.C09_src_tree_subtree_is_subterm
 #print axioms TFV.SrcTie.C09_src_tree_concat_splices
+#print axioms TFV.SrcTie.C09_src_tree_get_levels
+#print axioms TFV.SrcTie.C09_src_tree_get_max_level
+#print axioms TFV.SrcTie.C09_src_tree_get_common_region
